@@ -9,6 +9,8 @@ import (
 var (
 	// ErrBlobExists is returned when attempting to create a blob that already exists.
 	ErrBlobExists = errors.New("blob exists")
+	// ErrDigestMismatch is returned when the content does not match the expected digest.
+	ErrDigestMismatch = errors.New("digest mismatch")
 	// ErrNotFound is returned when a resource is not found.
 	ErrNotFound = errors.New("not found")
 	// ErrReadOnly is returned when the storage system does not permit write access.
